@@ -76,7 +76,7 @@ func acceptUnits(c *checkCtx, check string) []*interp.Unit {
 	var us []*interp.Unit
 	for _, sp := range specs {
 		for _, pr := range profs {
-			ps := map[string]interface{}{"spec": sp, "check": check}
+			ps := map[string]interface{}{"spec": sp, "check": check, "shared": 0}
 			for k, v := range pr.params {
 				ps[k] = v
 			}
@@ -84,6 +84,47 @@ func acceptUnits(c *checkCtx, check string) []*interp.Unit {
 			u.Samples = 1
 			us = append(us, u)
 		}
+	}
+	if check == "C01" {
+		// structural part: the compiled graph denotes the spec's language over matcher labels,
+		// for label sequences of any length (k-induction), for every token sequence up to k
+		k := 4
+		if !c.quick() {
+			k = 5
+		}
+		u := unit(groups["parser"], "H_struct", fmt.Sprintf("H_struct[k<=%d tokens]", k), map[string]interface{}{"k": k})
+		u.Samples = 12
+		us = append(us, u)
+	}
+	// declarations sharing one non-empty default slice (values must replace it, never be written through it)
+	for _, sp := range []string{"[-o] [-e]", "[OPTIONS] X Y", "[-e] [-o] X", "(-o X)... [-e]"} {
+		ps := map[string]interface{}{"spec": sp, "check": check, "shared": 1, "profile": "tmpl", "K": 2, "Lp": 1}
+		u := unit(cli, "H_accept", fmt.Sprintf("H_accept[%q shared defaults, tmpl K<=2]", sp), ps)
+		u.Samples = 1
+		us = append(us, u)
+	}
+	return us
+}
+
+// endUnits: the END family through H_accept with both assertions (C09: a spec-level
+// `--` acts like one on the command line; what follows is bound verbatim).
+func endUnits(c *checkCtx) []*interp.Unit {
+	cli := groups["cli"]
+	var us []*interp.Unit
+	l := 2
+	if !c.quick() {
+		l = 3
+	}
+	specs := append(evalList(c, "vFamilyEnd"), "X...", "[-a] X...", "X [Y]...")
+	for _, sp := range specs {
+		ps := map[string]interface{}{"spec": sp, "check": "C09", "shared": 0, "profile": "raw", "K": 3, "L": l}
+		if c.quick() {
+			ps["K"] = 2
+			ps["L"] = 3
+		}
+		u := unit(cli, "H_accept", fmt.Sprintf("H_accept[%q verbatim tail, raw K<=%v L<=%v]", sp, ps["K"], ps["L"]), ps)
+		u.Samples = 1
+		us = append(us, u)
 	}
 	return us
 }
@@ -94,17 +135,17 @@ func init() {
 		Units: func(c *checkCtx) []*interp.Unit { return acceptUnits(c, "C01") },
 		Bounds: func(c *checkCtx) map[string]interface{} {
 			if c.quick() {
-				return map[string]interface{}{"specs": "curated + END family + every 32nd generated spec (rotated by VERIF_SEED)", "raw": "K<=2 tokens of L<=3 arbitrary bytes", "template": "K<=2 items over 20 documented/malformed shapes, payload <=1 byte"}
+				return map[string]interface{}{"specs": "curated + END family + every 32nd generated spec (rotated by VERIF_SEED)", "raw": "K<=2 tokens of L<=3 arbitrary bytes", "template": "K<=2 items over 24 documented/malformed shapes, payload <=1 byte", "structural (H_struct)": "every sequence of <=4 spec tokens over 16 kinds that compiles: language equivalence of the compiled graph and the Glushkov automaton of the reference regular expression, proved by k-induction in z3 for label sequences of any length"}
 			}
-			return map[string]interface{}{"specs": "curated + END family + all generated specs", "raw": "K<=2 tokens of L<=4 arbitrary bytes", "template": "K<=3 items over 20 documented/malformed shapes, payload <=1 byte"}
+			return map[string]interface{}{"specs": "curated + END family + all generated specs", "raw": "K<=2 tokens of L<=4 arbitrary bytes", "template": "K<=3 items over 24 documented/malformed shapes, payload <=1 byte", "structural (H_struct)": "every sequence of <=5 spec tokens over 16 kinds that compiles: language equivalence by k-induction, label sequences of any length"}
 		},
 		Assumptions: append([]string{"declaration table: flags -a/--aa -b/--bb, valued -o/--oo -e/--ee (string lists), arguments X Y; no environment variables", "no token equals -h/--help (C14); no folded token with '=' after a flag; inputs of DESIGN.md 4.5 (iv) excluded for specs containing `--`", "flag values written as -a=v convert through strconv.ParseBool modelled as an uninterpreted function shared by implementation and reference"}, commonAssumptions...),
 		Outside:     []string{"command lines longer than K tokens / L bytes", "specs outside the family", "other declaration tables"},
 	})
 	reg(&propDef{
 		ID: "C02", Level: "model_checking",
-		Units: func(c *checkCtx) []*interp.Unit { return acceptUnits(c, "C02") },
-		Bounds: func(c *checkCtx) map[string]interface{} { return props["C01"].Bounds(c) },
+		Units:       func(c *checkCtx) []*interp.Unit { return acceptUnits(c, "C02") },
+		Bounds:      func(c *checkCtx) map[string]interface{} { return props["C01"].Bounds(c) },
 		Assumptions: props["C01"].Assumptions,
 		Outside:     props["C01"].Outside,
 	})
@@ -115,7 +156,7 @@ func init() {
 		var us []*interp.Unit
 		for _, sp := range specs {
 			for _, pr := range profs {
-				ps := map[string]interface{}{"spec": sp}
+				ps := map[string]interface{}{"spec": sp, "envmask": 15}
 				for k, v := range pr.params {
 					ps[k] = v
 				}
@@ -157,7 +198,7 @@ func init() {
 		},
 		Bounds: func(c *checkCtx) map[string]interface{} {
 			return map[string]interface{}{"H_lex_ref": fmt.Sprintf("all byte strings of <= %d bytes (symbolic bytes, solver-decided classes)", pick(c, 4, 5)),
-				"H_parse_ref": fmt.Sprintf("all sequences of <= %d tokens over 16 token kinds (declared and undeclared names); kinds are case splits enumerated by the engine", pick(c, 4, 5)),
+				"H_parse_ref":  fmt.Sprintf("all sequences of <= %d tokens over 16 token kinds (declared and undeclared names); kinds are case splits enumerated by the engine", pick(c, 4, 5)),
 				"H_run_panics": fmt.Sprintf("Run on all spec byte strings of 1..%d bytes over the table {-a/--aa, -o/--oo, X}", pick(c, 4, 5))}
 		},
 		Assumptions: commonAssumptions,
@@ -177,6 +218,8 @@ func init() {
 			if c.quick() {
 				specs = append(specs, everyNth(cur, 6, c.seed)...)
 				profs = []profile{{"raw K<=2 L<=2", map[string]interface{}{"profile": "raw", "K": 2, "L": 2}}}
+				tm := append([]string{"[--aa] [--oo] [--ee]", "[-a] [-o] X...", "[OPTIONS] X", "[OPTIONS]"}, everyNth(specs, 6, c.seed)...)
+				us = append(us, specUnits("H_apply_total", tm, []profile{{"tmpl K<=2 Lp<=1, env subsets of {VA,VE}", map[string]interface{}{"profile": "tmpl", "K": 2, "Lp": 1, "envmask": 9}}}, 1)...)
 			} else {
 				specs = append(specs, cur...)
 				specs = append(specs, everyNth(evalList(c, "vFamilyGenerated"), 8, c.seed)...)
@@ -188,7 +231,7 @@ func init() {
 		Bounds: func(c *checkCtx) map[string]interface{} {
 			return map[string]interface{}{"H_lex_total/H_doinit_total": fmt.Sprintf("all spec byte strings of <= %d bytes", pick(c, 4, 5)),
 				"H_apply_total": "env-heavy + curated (+ generated, thorough) specs x every subset of the 4 options backed by a set environment variable x argv " + map[bool]string{true: "raw K<=2 L<=2", false: "raw K<=2 L<=3 and template K<=2"}[c.quick()],
-				"unwinding": "recursion depth of fsm apply <= (bytes+tokens+2)*(4*len(spec)+6); calls of simplifySelf <= 40*(len(spec)+2)^2; 20M interpreted instructions per path"}
+				"unwinding":     "recursion depth of fsm apply <= (bytes+tokens+2)*(4*len(spec)+6); calls of simplifySelf <= 40*(len(spec)+2)^2; 20M interpreted instructions per path"}
 		},
 		Assumptions: commonAssumptions,
 		Outside:     []string{"specs / argument vectors beyond the bounds", "\"promptly\" is read as the derived step bounds, not wall-clock time"},
@@ -200,15 +243,15 @@ func init() {
 			gen := endFree(evalList(c, "vFamilyGenerated"))
 			if c.quick() {
 				specs := append(everyNth(cur, 3, c.seed), everyNth(gen, 64, c.seed)...)
-				return specUnits("H_dd_insert", specs, []profile{{"tmpl K<=2 Lp<=1", map[string]interface{}{"profile": "tmpl", "K": 2, "Lp": 1}}, {"raw K<=2 L<=2", map[string]interface{}{"profile": "raw", "K": 2, "L": 2}}}, 1)
+				return append(endUnits(c), specUnits("H_dd_insert", specs, []profile{{"tmpl K<=2 Lp<=1", map[string]interface{}{"profile": "tmpl", "K": 2, "Lp": 1}}, {"raw K<=2 L<=2", map[string]interface{}{"profile": "raw", "K": 2, "L": 2}}}, 1)...)
 			}
 			specs := append(cur, everyNth(gen, 4, c.seed)...)
-			return specUnits("H_dd_insert", specs, []profile{{"tmpl K<=3 Lp<=1", map[string]interface{}{"profile": "tmpl", "K": 3, "Lp": 1}}, {"raw K<=2 L<=3", map[string]interface{}{"profile": "raw", "K": 2, "L": 3}}}, 1)
+			return append(endUnits(c), specUnits("H_dd_insert", specs, []profile{{"tmpl K<=3 Lp<=1", map[string]interface{}{"profile": "tmpl", "K": 3, "Lp": 1}}, {"raw K<=2 L<=3", map[string]interface{}{"profile": "raw", "K": 2, "L": 3}}}, 1)...)
 		},
 		Bounds: func(c *checkCtx) map[string]interface{} {
 			return map[string]interface{}{"insertion": "every insertion point 0..K whose tail consists of non-dash positionals, including the very end",
-				"argv": map[bool]string{true: "template K<=2 items (payload 1 byte), raw K<=2 L<=2", false: "template K<=3 items, raw K<=2 L<=3"}[c.quick()],
-				"specs": "`--`-free curated and generated specs (subset rotated by VERIF_SEED); verbatim binding after `--` and spec-level `--` are covered by C01/C02 on the END family"}
+				"argv":  map[bool]string{true: "template K<=2 items (payload 1 byte), raw K<=2 L<=2", false: "template K<=3 items, raw K<=2 L<=3"}[c.quick()],
+				"specs": "`--`-free curated and generated specs (subset rotated by VERIF_SEED) for the insertion clause; END family (15 specs with a spec-level `--`) + 3 repetition specs through the differential harness H_accept (acceptance and verbatim bindings vs the reference) for the spec-level `--` / verbatim-tail clauses"}
 		},
 		Assumptions: append([]string{"no environment-backed options; token p-1 is not a valued option waiting for its value; no `--` before the insertion point"}, commonAssumptions...),
 		Outside:     []string{"longer command lines"},
@@ -217,14 +260,17 @@ func init() {
 		ID: "C10", Level: "model_checking",
 		Units: func(c *checkCtx) []*interp.Unit {
 			all := withOption(endFree(append(evalList(c, "vFamilyCurated"), evalList(c, "vFamilyGenerated")...)))
+			core := []string{"[-o] [-e]", "-o -e", "[-a] [-o]", "[-a] [-o] [X]", "-a... [-b]", "-a... -b", "[OPTIONS]", "[--aa] [--oo] [--ee]"}
 			if c.quick() {
-				return specUnits("H_respell", everyNth(all, 48, c.seed), []profile{{"n<=2 Lp<=1", map[string]interface{}{"n": 2, "Lp": 1}}}, 1)
+				us := specUnits("H_respell", append(core, everyNth(all, 64, c.seed)...), []profile{{"n<=2 Lp<=1", map[string]interface{}{"n": 2, "Lp": 1, "flagsOnly": 0}}}, 1)
+				return append(us, specUnits("H_respell", []string{"-a... [-b]", "-a... -b", "(-a | -b)...", "[-ab]..."}, []profile{{"flags only n<=4", map[string]interface{}{"n": 4, "Lp": 1, "flagsOnly": 1}}}, 1)...)
 			}
-			us := specUnits("H_respell", everyNth(all, 6, c.seed), []profile{{"n<=2 Lp<=2", map[string]interface{}{"n": 2, "Lp": 2}}}, 1)
-			return append(us, specUnits("H_respell", everyNth(all, 48, c.seed), []profile{{"n<=3 Lp<=1", map[string]interface{}{"n": 3, "Lp": 1}}}, 1)...)
+			us := specUnits("H_respell", append(core, everyNth(all, 6, c.seed)...), []profile{{"n<=2 Lp<=2", map[string]interface{}{"n": 2, "Lp": 2, "flagsOnly": 0}}}, 1)
+			us = append(us, specUnits("H_respell", []string{"-a... [-b]", "-a... -b", "(-a | -b)...", "[-ab]...", "-a... -b...", "[OPTIONS]"}, []profile{{"flags only n<=5", map[string]interface{}{"n": 5, "Lp": 1, "flagsOnly": 1}}}, 1)...)
+			return append(us, specUnits("H_respell", everyNth(all, 48, c.seed), []profile{{"n<=3 Lp<=1", map[string]interface{}{"n": 3, "Lp": 1, "flagsOnly": 0}}}, 1)...)
 		},
 		Bounds: func(c *checkCtx) map[string]interface{} {
-			return map[string]interface{}{"items": map[bool]string{true: "n<=2 items, payload 1 symbolic byte", false: "n<=2 items payload <=2 bytes; n<=3 items payload 1 byte"}[c.quick()],
+			return map[string]interface{}{"items": map[bool]string{true: "n<=2 items, payload 1 symbolic byte; n<=4 flag occurrences (deep folds)", false: "n<=2 items payload <=2 bytes; n<=3 items payload 1 byte; n<=5 flag occurrences"}[c.quick()],
 				"spellings": "every form (4 for flags, 5 for valued options) and every legal folding of adjacent short forms, compared with the canonical spelling (one token per occurrence, long form with '=')"}
 		},
 		Assumptions: append([]string{"values are non-empty and do not start with '-' (separate form) or '=' (attached form); no option item after a `--` item", "forms and folds are case splits enumerated by the engine; payload bytes are symbolic"}, commonAssumptions...),
@@ -234,11 +280,15 @@ func init() {
 		ID: "C11", Level: "model_checking",
 		Units: func(c *checkCtx) []*interp.Unit {
 			all := withOption(endFree(append(evalList(c, "vFamilyCurated"), evalList(c, "vFamilyGenerated")...)))
+			core := []string{"[-o] [-e]", "-o -e", "[-a] [-o]", "[-a] [-o] [X]", "[-b] [-o] [-e]...", "-a [-b]... [-o]", "[OPTIONS]", "[-ab]"}
+			envSpecs := []string{"[OPTIONS]", "[-ab]", "-a [-b]... [-o]", "[OPTIONS] X"}
 			if c.quick() {
-				us := specUnits("H_swap", everyNth(all, 24, c.seed), []profile{{"n<=2 Lp<=1", map[string]interface{}{"n": 2, "Lp": 1}}}, 1)
-				return append(us, specUnits("H_swap", everyNth(all, 480, c.seed), []profile{{"n<=3 Lp<=1", map[string]interface{}{"n": 3, "Lp": 1}}}, 1)...)
+				us := specUnits("H_swap", append(core, everyNth(all, 32, c.seed)...), []profile{{"n<=2 Lp<=1", map[string]interface{}{"n": 2, "Lp": 1, "env": 0}}}, 1)
+				us = append(us, specUnits("H_swap", envSpecs, []profile{{"n<=2 Lp<=1 env subsets", map[string]interface{}{"n": 2, "Lp": 1, "env": 1}}}, 1)...)
+				return append(us, specUnits("H_swap", append([]string{"[-a] [-o] [X]"}, everyNth(all, 640, c.seed)...), []profile{{"n<=3 Lp<=1", map[string]interface{}{"n": 3, "Lp": 1, "env": 0}}}, 1)...)
 			}
-			return specUnits("H_swap", everyNth(all, 8, c.seed), []profile{{"n<=3 Lp<=1", map[string]interface{}{"n": 3, "Lp": 1}}}, 1)
+			us := specUnits("H_swap", append(core, everyNth(all, 8, c.seed)...), []profile{{"n<=3 Lp<=1", map[string]interface{}{"n": 3, "Lp": 1, "env": 0}}}, 1)
+			return append(us, specUnits("H_swap", envSpecs, []profile{{"n<=3 Lp<=1 env subsets", map[string]interface{}{"n": 3, "Lp": 1, "env": 1}}}, 1)...)
 		},
 		Bounds: func(c *checkCtx) map[string]interface{} {
 			return map[string]interface{}{"items": "n<=3 items, payload 1 symbolic byte; every adjacent pair of occurrences of different options; every spelling incl. folded pairs"}
@@ -251,14 +301,16 @@ func init() {
 		Units: func(c *checkCtx) []*interp.Unit {
 			specs := append(evalList(c, "vFamilyEnv"), evalList(c, "vFamilyEnvEnd")...)
 			cur := append(evalList(c, "vFamilyCurated"), evalList(c, "vFamilyEnd")...)
+			core := []string{"-e X", "[OPTIONS]", "[OPTIONS] X", "-e...", "[-e...] X", "(-e | -a)... X", "-ae", "-e -- X"}
 			if c.quick() {
-				return specUnits("H_envmono", append(everyNth(specs, 3, c.seed), everyNth(cur, 30, c.seed)...), []profile{{"tmpl K<=2 Lp<=1", map[string]interface{}{"profile": "tmpl", "K": 2, "Lp": 1}}}, 1)
+				us := specUnits("H_envmono", append(core, append(everyNth(specs, 6, c.seed), everyNth(cur, 40, c.seed)...)...), []profile{{"tmpl K<=2 Lp<=1, env subsets of {VA,VE}", map[string]interface{}{"profile": "tmpl", "K": 2, "Lp": 1, "envmask": 9}}}, 1)
+				return append(us, specUnits("H_envmono", []string{"[OPTIONS]", "[OPTIONS] X", "-ae"}, []profile{{"tmpl K<=2 Lp<=1, all 16 env subsets", map[string]interface{}{"profile": "tmpl", "K": 2, "Lp": 1, "envmask": 15}}}, 1)...)
 			}
 			specs = append(specs, cur...)
 			return specUnits("H_envmono", specs, []profile{{"tmpl K<=2 Lp<=1", map[string]interface{}{"profile": "tmpl", "K": 2, "Lp": 1}}, {"raw K<=2 L<=3", map[string]interface{}{"profile": "raw", "K": 2, "L": 3}}}, 1)
 		},
 		Bounds: func(c *checkCtx) map[string]interface{} {
-			return map[string]interface{}{"env": "every subset of {VA,VB,VO,VE} set to a fixed valid value (symbolic bits)", "argv": "template K<=2 items over 20 shapes" + map[bool]string{true: "", false: "; raw K<=2 L<=3"}[c.quick()],
+			return map[string]interface{}{"env": map[bool]string{true: "every subset of {VA,VE} (all 16 subsets of {VA,VB,VO,VE} on the three option-group specs)", false: "every subset of {VA,VB,VO,VE}"}[c.quick()] + " set to a fixed valid value (symbolic bits)", "argv": "template K<=2 items over 20 shapes" + map[bool]string{true: "", false: "; raw K<=2 L<=3"}[c.quick()],
 				"specs": "env-heavy shapes + curated + END family (quick: a rotated subset)"}
 		},
 		Assumptions: append([]string{"value-identity clause only for specs without `--`", "differential clause (acceptance with env == reference with env fallback) only for specs without option groups"}, commonAssumptions...),
@@ -276,6 +328,32 @@ func init() {
 		return us
 	}
 	allTrees := []int{0, 1, 2, 3, 4, 5}
+	precUnits := func(c *checkCtx, check string) []*interp.Unit {
+		var us []*interp.Unit
+		for t := 0; t < 7; t++ {
+			for opt := 1; opt >= 0; opt-- {
+				envLen, cliLen, maxEnv := 2, 2, 1
+				if !c.quick() {
+					envLen, cliLen, maxEnv = 3, 2, 2
+					if t >= 4 {
+						maxEnv = 1
+					}
+				}
+				role := map[int]string{1: "opt", 0: "arg"}[opt]
+				tn := []string{"bool", "string", "int", "float64", "strings", "ints", "floats64"}[t]
+				u := unit(cli, "H_prec", fmt.Sprintf("H_prec[%s %s env<=%dB x%d cli<=%dB]", tn, role, envLen, maxEnv, cliLen),
+					map[string]interface{}{"type": t, "opt": opt, "check": check, "envLen": envLen, "cliLen": cliLen, "maxEnv": maxEnv})
+				u.Samples = 4
+				us = append(us, u)
+			}
+		}
+		return us
+	}
+	precBounds := func(c *checkCtx) map[string]interface{} {
+		return map[string]interface{}{"instances": "7 built-in types x {option, argument}", "default": "symbolic (strings <=2 bytes, ints 64-bit, bools; floats concrete); lists of 0-2 elements",
+			"environment": map[bool]string{true: "0-1 listed variable, value <=2 ASCII bytes", false: "0-2 listed variables (0-1 for list types), value <=3 ASCII bytes"}[c.quick()], "command line": "the value 0, 1 or 2 times, payload 1-2 arbitrary bytes"}
+	}
+	precAssume := append([]string{"strconv.ParseBool/ParseInt/ParseFloat are uninterpreted functions shared by implementation and oracle; models and counterexamples are made consistent with the real strconv by lazily added ground facts and a corpus of edge-case tokens", "environment values are ASCII without NUL"}, commonAssumptions...)
 	reg(&propDef{
 		ID: "C04", Level: "model_checking",
 		Units: func(c *checkCtx) []*interp.Unit {
@@ -294,12 +372,13 @@ func init() {
 	reg(&propDef{
 		ID: "C07", Level: "model_checking",
 		Units: func(c *checkCtx) []*interp.Unit {
+			conv := precUnits(c, "C07")
 			if c.quick() {
-				return treeUnits("H_policy", allTrees, 3, 2, 4)
+				return append(treeUnits("H_policy", allTrees, 3, 2, 4), conv...)
 			}
-			return append(treeUnits("H_policy", allTrees, 4, 2, 4), treeUnits("H_policy", allTrees, 3, 3, 4)...)
+			return append(append(treeUnits("H_policy", allTrees, 4, 2, 4), treeUnits("H_policy", allTrees, 3, 3, 4)...), conv...)
 		},
-		Bounds: func(c *checkCtx) map[string]interface{} { return props["C04"].Bounds(c) },
+		Bounds:      func(c *checkCtx) map[string]interface{} { return props["C04"].Bounds(c) },
 		Assumptions: append([]string{"the three policies are three runs of the real code on the same symbolic argv; which command rejects comes from the reference router; addressed commands without Action are excluded; conversion errors through IntOpt -n on tree 0 (strconv uninterpreted, ground-truthed)"}, commonAssumptions...),
 		Outside:     []string{"other trees", "longer command lines", "byte-exact rendering of the help text (C17)"},
 	})
@@ -337,32 +416,6 @@ func init() {
 		Assumptions: append([]string{"the process-exit function is replaced by a recording stub that does not return (os.Exit never returns)", "oracle: 20-line chain reference (DESIGN D.3)"}, commonAssumptions...),
 		Outside:     []string{"panic(nil)", "hooks calling os.Exit directly", "deeper paths"},
 	})
-	precUnits := func(c *checkCtx, check string) []*interp.Unit {
-		var us []*interp.Unit
-		for t := 0; t < 7; t++ {
-			for opt := 1; opt >= 0; opt-- {
-				envLen, cliLen, maxEnv := 2, 2, 1
-				if !c.quick() {
-					envLen, cliLen, maxEnv = 3, 2, 2
-					if t >= 4 {
-						maxEnv = 1
-					}
-				}
-				role := map[int]string{1: "opt", 0: "arg"}[opt]
-				tn := []string{"bool", "string", "int", "float64", "strings", "ints", "floats64"}[t]
-				u := unit(cli, "H_prec", fmt.Sprintf("H_prec[%s %s env<=%dB x%d cli<=%dB]", tn, role, envLen, maxEnv, cliLen),
-					map[string]interface{}{"type": t, "opt": opt, "check": check, "envLen": envLen, "cliLen": cliLen, "maxEnv": maxEnv})
-				u.Samples = 4
-				us = append(us, u)
-			}
-		}
-		return us
-	}
-	precBounds := func(c *checkCtx) map[string]interface{} {
-		return map[string]interface{}{"instances": "7 built-in types x {option, argument}", "default": "symbolic (strings <=2 bytes, ints 64-bit, bools; floats concrete); lists of 0-2 elements",
-			"environment": map[bool]string{true: "0-1 listed variable, value <=2 ASCII bytes", false: "0-2 listed variables (0-1 for list types), value <=3 ASCII bytes"}[c.quick()], "command line": "the value 0, 1 or 2 times, payload 1-2 arbitrary bytes"}
-	}
-	precAssume := append([]string{"strconv.ParseBool/ParseInt/ParseFloat are uninterpreted functions shared by implementation and oracle; models and counterexamples are made consistent with the real strconv by lazily added ground facts and a corpus of edge-case tokens", "environment values are ASCII without NUL"}, commonAssumptions...)
 	reg(&propDef{ID: "C06", Level: "model_checking", Units: func(c *checkCtx) []*interp.Unit { return precUnits(c, "C06") }, Bounds: precBounds, Assumptions: precAssume,
 		Outside: []string{"longer environment values / more variables", "custom types (C19)"}})
 	reg(&propDef{ID: "C15", Level: "model_checking", Units: func(c *checkCtx) []*interp.Unit { return precUnits(c, "C15") }, Bounds: precBounds, Assumptions: precAssume,
@@ -374,17 +427,17 @@ func init() {
 			var us []*interp.Unit
 			for t := 0; t < 7; t++ {
 				tn := []string{"bool", "string", "int", "float64", "strings", "ints", "floats64"}[t]
-				us = append(us, unit(val, "H_set", fmt.Sprintf("H_set[%s L<=8]", tn), map[string]interface{}{"type": t, "L": 8}))
+				us = append(us, unit(val, "H_set", fmt.Sprintf("H_set[%s L<=20]", tn), map[string]interface{}{"type": t, "L": 20}))
 			}
 			return append(us, precUnits(c, "C13")...)
 		},
 		Bounds: func(c *checkCtx) map[string]interface{} {
 			b := precBounds(c)
-			b["H_set"] = "every Set method on tokens of <=8 arbitrary bytes"
+			b["H_set"] = "every Set method on tokens of <=20 arbitrary bytes"
 			return b
 		},
 		Assumptions: precAssume,
-		Outside:     []string{"the arithmetic of strconv itself (it is the oracle)", "tokens longer than 8 bytes (the glue code does not inspect the bytes)"},
+		Outside:     []string{"the arithmetic of strconv itself (it is the oracle)", "tokens longer than 20 bytes (the glue code does not inspect the bytes)"},
 	})
 	reg(&propDef{
 		ID: "C16", Level: "model_checking",
@@ -401,7 +454,7 @@ func init() {
 							profs = []profile{{"tmpl K<=3 Lp<=1", map[string]interface{}{"profile": "tmpl", "K": 3, "Lp": 1}}, {"raw K<=2 L<=3", map[string]interface{}{"profile": "raw", "K": 2, "L": 3}}}
 						}
 						for _, pr := range profs {
-							ps := map[string]interface{}{"nopt": nopt, "narg": narg, "swap": swap}
+							ps := map[string]interface{}{"nopt": nopt, "narg": narg, "swap": swap, "env": 0}
 							for k, v := range pr.params {
 								ps[k] = v
 							}
@@ -409,13 +462,28 @@ func init() {
 							u.Samples = 2
 							us = append(us, u)
 						}
+						if narg > 0 && (swap == 0 || !c.quick()) {
+							// the same with every option and argument backed by an environment variable (symbolic subset set)
+							ps := map[string]interface{}{"nopt": nopt, "narg": narg, "swap": swap, "env": 1, "profile": "raw", "K": 2, "L": 1}
+							u := unit(cli, "H_defspec", fmt.Sprintf("H_defspec[%d opts %d args v%d env subsets, raw K<=2 L<=1]", nopt, narg, swap), ps)
+							u.Samples = 2
+							us = append(us, u)
+						}
 					}
+				}
+			}
+			for pair := 0; pair < 6; pair++ {
+				for withopt := 0; withopt <= 1; withopt++ {
+					ps := map[string]interface{}{"pair": pair, "withopt": withopt, "profile": "raw", "K": 3, "L": 1}
+					u := unit(cli, "H_defspec_names", fmt.Sprintf("H_defspec_names[pair %d opt %d raw K<=3 L<=1]", pair, withopt), ps)
+					u.Samples = 2
+					us = append(us, u)
 				}
 			}
 			return us
 		},
 		Bounds: func(c *checkCtx) map[string]interface{} {
-			return map[string]interface{}{"declarations": "0-2 options from {flag -a/--aa, valued -o/--oo}, 0-2 arguments from {X, Y}: 15 sets", "argv": map[bool]string{true: "template K<=2, raw K<=2 L<=2", false: "template K<=3, raw K<=2 L<=3"}[c.quick()],
+			return map[string]interface{}{"declarations": "0-2 options from {flag -a/--aa, valued -o/--oo}, 0-2 arguments from {X, Y}: 15 sets, also with every parameter backed by an environment variable (symbolic subset set); 6 pairs of argument names containing one another or contained in `[OPTIONS]`", "argv": map[bool]string{true: "template K<=2, raw K<=2 L<=2", false: "template K<=3, raw K<=2 L<=3"}[c.quick()],
 				"sub-commands": "spec-less sub-commands are exercised by trees 1 and 4 of C04/C07/C14 (usage line oracle assumes C16)"}
 		},
 		Assumptions: commonAssumptions,
@@ -478,16 +546,21 @@ func init() {
 					if !c.quick() {
 						lp, el = 2, 3
 					}
-					u := unit(cli, "H_custom", fmt.Sprintf("H_custom[combo %03b %s Lp<=%d env<=%d]", combo, map[int]string{1: "opt", 0: "arg"}[opt], lp, el),
-						map[string]interface{}{"combo": combo, "opt": opt, "Lp": lp, "envLen": el})
-					u.Samples = 3
-					us = append(us, u)
+					for fa := 1; fa >= 0; fa-- {
+						if fa == 0 && combo < 4 {
+							continue // no IsBoolFlag method: nothing to answer
+						}
+						u := unit(cli, "H_custom", fmt.Sprintf("H_custom[combo %03b %s IsBoolFlag()=%v Lp<=%d env<=%d]", combo, map[int]string{1: "opt", 0: "arg"}[opt], fa == 1, lp, el),
+							map[string]interface{}{"combo": combo, "opt": opt, "Lp": lp, "envLen": el, "flagAnswer": fa})
+						u.Samples = 3
+						us = append(us, u)
+					}
 				}
 			}
 			return us
 		},
 		Bounds: func(c *checkCtx) map[string]interface{} {
-			return map[string]interface{}{"types": "8 recorder types (IsBoolFlag x Clear x IsDefault) as option and as argument", "inputs": "0-2 command-line values (flag-like options also bare), symbolic payloads, symbolic poison token on which Set fails, symbolic environment value"}
+			return map[string]interface{}{"types": "8 recorder types (IsBoolFlag x Clear x IsDefault; types with IsBoolFlag answering true and answering false) as option and as argument", "inputs": "0-2 command-line values (flag-like options also bare), symbolic payloads, symbolic poison token on which Set fails, symbolic environment value"}
 		},
 		Assumptions: append([]string{"environment values are ASCII without NUL"}, commonAssumptions...),
 		Outside:     []string{"more than 2 values", "several environment variables"},
